@@ -26,6 +26,9 @@ pub struct Case {
     pub blocker: u8,
     pub blocker_threshold: u32,
     pub steps: Vec<Step>,
+    /// name of the last resource: 0 an ordinary fresh name, 1 the empty string, 2 a name with unicode, blanks, the
+    /// metric-line separator and a line break
+    pub odd_name: u8,
 }
 
 pub fn decode(u: &mut Bytes) -> Case {
@@ -63,7 +66,8 @@ pub fn decode(u: &mut Bytes) -> Case {
             });
         }
     }
-    Case { phase_ms, nres, blocker, blocker_threshold, steps }
+    let odd_name = [0u8, 0, 0, 0, 1, 2][u.tail_choice(6)];
+    Case { phase_ms, nres, blocker, blocker_threshold, steps, odd_name }
 }
 
 impl Property for C04 {
@@ -77,7 +81,7 @@ impl Property for C04 {
         }
     }
     fn rule(&self) -> String {
-        "bytes -> 2-3 resources, optional rule of one family (flow reject, isolation, hotspot concurrency, error-count breaker, system concurrency, flow throttling and hotspot QPS throttling that queue some entries, hotspot QPS reject, flow warm-up) on resource 0 / globally, 4-60 steps build(dt, resource, inbound|outbound, batch 1..5) / exit(dt, any open entry, with or without error); decisions are taken as observed, the accounting is compared after every step with an InFlight+event-list model on every resource node and on the global inbound node (current_concurrency, 10 s window Pass/Block/Complete/Error/Rt sums, default-window sums/qps/avg_rt/min_rt); non-trivial = >=1 blocked build, >=2 entries open at once on one resource, >=1 exit in a later bucket than its build, both traffic types present; distinct = distinct decoded cases".into()
+        "bytes -> 2-3 resources (the last one, in a third of the cases, named by the empty string or by a name with unicode, blanks, the separator and a line break), optional rule of one family (flow reject, isolation, hotspot concurrency, error-count breaker, system concurrency, flow throttling and hotspot QPS throttling that queue some entries, hotspot QPS reject, flow warm-up) on resource 0 / globally, 4-60 steps build(dt, resource, inbound|outbound, batch 1..5) / exit(dt, any open entry, with or without error); decisions are taken as observed, the accounting is compared after every step with an InFlight+event-list model on every resource node and on the global inbound node (current_concurrency, 10 s window Pass/Block/Complete/Error/Rt sums, default-window sums/qps/avg_rt/min_rt); non-trivial = >=1 blocked build, >=2 entries open at once on one resource, >=1 exit in a later bucket than its build, both traffic types present; distinct = distinct decoded cases".into()
     }
     fn assumptions(&self) -> Vec<String> {
         vec![
@@ -106,7 +110,13 @@ pub fn run_case(case: &Case, cfg: &RunCfg) -> Verdict {
     util::reset_all();
     let t0 = clock::new_case_epoch() + case.phase_ms;
     clock::set_ms(t0);
-    let names: Vec<String> = (0..case.nres).map(|i| util::fresh_name(&format!("c04r{}", i))).collect();
+    let mut names: Vec<String> = (0..case.nres).map(|i| util::fresh_name(&format!("c04r{}", i))).collect();
+    match case.odd_name {
+        // the library accepts an entry on the empty name; as long as it hands out an entry for it, that entry is accounted
+        1 => names[case.nres - 1] = String::new(),
+        2 => names[case.nres - 1] = format!("订单 |a b\n{}", names[case.nres - 1]),
+        _ => {}
+    }
     let inbound = stat::inbound_node();
     if inbound.current_concurrency() != 0 {
         fail!(ID, "inbound-baseline", "inbound-baseline", case, "inbound node in-flight is {} at case start", inbound.current_concurrency());
@@ -233,6 +243,8 @@ pub fn run_case(case: &Case, cfg: &RunCfg) -> Verdict {
                         recs.push(OpenRec { res: *res, inbound: *inb, batch: *batch, t_build: t_start, idx });
                         max_open_one = max_open_one.max(models[*res].open);
                     }
+                    // a refusal that is not a block (no rule involved) would be a malformed-call answer, not an entry
+                    Err(m) if !m.contains("block_type") => {}
                     Err(_) => {
                         blocked += 1;
                         models[*res].block(t, *batch as u64);
@@ -292,6 +304,8 @@ pub fn run_case(case: &Case, cfg: &RunCfg) -> Verdict {
     }
     let mut classes = Vec::new();
     classes.push(["no-blocker", "flow-blocker", "isolation-blocker", "hotspot-blocker", "breaker-blocker", "system-blocker", "flow-throttling", "hotspot-throttling", "hotspot-qps-reject", "flow-warm-up"][case.blocker as usize]);
+    if case.odd_name == 1 { classes.push("resource-with-empty-name"); }
+    if case.odd_name == 2 { classes.push("resource-with-odd-name"); }
     if queued > 0 { classes.push("queued-admission"); }
     if blocked > 0 { classes.push("has-blocked-build"); }
     if max_open_one >= 2 { classes.push("two-open-on-one-resource"); }
